@@ -220,8 +220,19 @@ func (w *World) userBody(ui int) {
 			if !cs.closed {
 				cs.wakesDue++
 			}
-			err := c.Wake(func(c gnet.Conn, err error) error { w.asyncDone(aid, c, err); return nil })
+			var err error
+			if op.N%2 == 1 {
+				// Wake without a callback: still one OnTraffic per accepted call
+				err = c.Wake(nil)
+				w.asyncs[aid].cbCount = -1
+				w.probes["wake-without-callback"]++
+			} else {
+				err = c.Wake(func(c gnet.Conn, err error) error { w.asyncDone(aid, c, err); return nil })
+			}
 			w.asyncIssued(aid, err)
+			if err != nil && !cs.closed {
+				cs.wakesDue--
+			}
 		case "close":
 			cs.localReq = true
 			aid := w.newAsync("close", cs.idx, ui)
